@@ -620,7 +620,9 @@ def _n27_filterloop(func):
                     (isinstance(y, ast.Name) and y.id == P.id and not isinstance(y.ctx, ast.Load)) or
                     (isinstance(y, ast.arg) and y.arg == P.id) for y in ast.walk(func)):
                 dl, d = local_defs[P.id][0]
-                body = [b for b in d.body if not (isinstance(b, ast.Expr) and isinstance(b.value, ast.Constant))]
+                body = [b for b in d.body if not (isinstance(b, ast.Expr) and (isinstance(b.value, ast.Constant) or (
+                    isinstance(b.value, ast.Call) and isinstance(b.value.func, ast.Name) and b.value.func.id == 'repr'
+                    and len(b.value.args) == 1 and isinstance(b.value.args[0], ast.Constant))))]
                 a = d.args
                 if len(body) == 1 and isinstance(body[0], ast.Return) and body[0].value is not None and len(a.args) == 1 \
                         and not (a.defaults or a.vararg or a.kwarg or a.kwonlyargs or a.posonlyargs or d.decorator_list) \
